@@ -63,6 +63,30 @@ def mk_msgs():
     return entry_msg, null_msg
 
 
+def ref_insert(m: list, idx: int, dtm, maxidx: int) -> list:
+    """The Coq model's insert_into_map, transcribed (checked against coqc on every X1 case of every run)."""
+    part1 = [(k, v) for k, v in m if k < idx and (dtm is None or dtm < v)]
+    if dtm is None:
+        return part1
+
+    def upd(lst, k, v):
+        for i, (k2, _) in enumerate(lst):
+            if k2 == k:
+                return lst[:i] + [(k, v)] + lst[i + 1:]
+        return lst + [(k, v)]
+
+    nm = upd(part1, idx, dtm)
+    idxs = [k for k, v in m if v < dtm]
+    if not idxs:
+        return nm
+    nxt = min(idxs)
+    diff = 0 if idx < nxt else (1 if nxt == idx else idx + 1)
+    for k, v in m:
+        if (idx <= k or v < dtm) and k + diff <= maxidx:
+            nm = upd(nm, k + diff, v)
+    return nm
+
+
 def coq_map(m) -> str:
     return "[" + "; ".join(f"({k},{v})" for k, v in m) + "]"
 
@@ -93,7 +117,7 @@ def run(ctx: Ctx) -> None:
     fl = FaultLog(_Tcs())
 
     # ------------------------------------------------------------ X1: the map function
-    cases, impl = [], []
+    cases, impl, ref_x1 = [], [], []
     pool: list[tuple] = [()]
     n1 = 6000 if thorough else 1500
     for _ in range(n1):
@@ -111,6 +135,7 @@ def run(ctx: Ctx) -> None:
         res = [(k, unts(v)) for k, v in r.items()]
         ctx.case(("ins", tuple(m), idx, dtm), res != m, "insert")
         impl.append(res)
+        ref_x1.append(ref_insert(m, idx, dtm, MAX))
         if len(res) <= 8 and len(pool) < 4000:
             pool.append(tuple(res))
         cases.append(f"({coq_map(m)}, {idx}, {'None' if dtm is None else f'Some {dtm}'})")
@@ -186,6 +211,9 @@ def run(ctx: Ctx) -> None:
             if tag == "x1":
                 model = [[tuple(p) for p in r] for r in model]
                 imp2 = [[tuple(p) for p in r] for r in imp]
+                refbad = [i for i, (a, b) in enumerate(zip(model, ref_x1)) if a != [tuple(p) for p in b]]
+                ctx.obligation("harness:python-reference-equals-coq-model", not refbad, "correspondence",
+                               f"{len(refbad)} cases differ (first {cases[refbad[0]]})" if refbad else "")
             else:
                 model = [[[tuple(p) for p in part] for part in r] for r in model]
                 imp2 = [[[tuple(p) for p in part] for part in r] for r in imp]
@@ -215,6 +243,33 @@ def search(ctx: Ctx, fl, maxn: int, maxdepth: int) -> None:
         fl._map = OrderedDict(m)
         return tuple(fl._insert_into_map(idx, d).items())
 
+    def ins_ref(m: tuple, idx: int, d):
+        if d is not None and dict(m).get(idx) == d:
+            return m
+        if d is None and idx == 0:
+            return m
+        return tuple(ref_insert(list(m), idx, d, MAX))
+
+    def bad_kind(mm: dict):
+        vv = list(mm.values())
+        if len(set(vv)) != len(vv):
+            return "duplicate-entry"
+        if any(mm[a] <= mm[b] for a in mm for b in mm if a < b):
+            return "not-newest-first"
+        return None
+
+    def replay_ref(path):
+        """The same history on the model's semantics."""
+        n, m = 0, ()
+        for op in path:
+            if op[0] == "new-entry":
+                n += 1
+                if op[1] == "announced":
+                    m = ins_ref(m, 0, f"{n:02d}")
+            else:
+                m = ins_ref(m, op[1], op[2])
+        return dict(m)
+
     def ctl_log(n):
         return [f"{i:02d}" for i in range(n, 0, -1)]  # newest first; "01" is the oldest
 
@@ -230,6 +285,32 @@ def search(ctx: Ctx, fl, maxn: int, maxdepth: int) -> None:
             p.append(info[s][2])
             s = info[s][1]
         return list(reversed(p))
+
+    def branch_of(parent_map: tuple, op) -> str:
+        """Which case of _insert_into_map the violating step went through (cause class of a finding)."""
+        if op is None:
+            return "initial"
+        if op[0] == "new-entry":
+            idx, d = 0, None
+            if op[1] != "announced":
+                return "lost-announcement"
+        else:
+            idx, d = op[1], op[2]
+        m = dict(parent_map)
+        if d is None and op[0] == "RP":
+            return f"null-reply:idx{'0' if idx == 0 else 'N'}"
+        if d is None:  # announced new entry: its timestamp is newer than everything
+            older = list(m)
+        else:
+            older = [k for k, v in m.items() if v < d]
+        if not older:
+            cls = "no-older-entry"
+        else:
+            nxt = min(older)
+            cls = "next-older-below" if nxt > idx else ("next-older-at-idx" if nxt == idx else "next-older-above")
+        taken = m.get(idx)
+        slot = "" if taken is None else (":slot-holds-newer" if d is not None and taken > d else ":slot-holds-older")
+        return f"{'ann' if op[0] == 'new-entry' else 'rp'}:idx{'0' if idx == 0 else 'N'}:{cls}{slot}"
 
     def report(sig, what, s, extra):
         if sig in reported:
@@ -247,20 +328,39 @@ def search(ctx: Ctx, fl, maxn: int, maxdepth: int) -> None:
         ctx.case(("state", n, mt), bool(mt), "bfs-state")
         # -- state predicates
         vals = list(m.values())
-        lostsig = ">=2-lost-announcements" if lost >= 2 else f"{lost}-lost-announcements"
-        if len(set(vals)) != len(vals):
-            report(f"duplicate-entry:{lostsig}", "one log entry is shown at two positions of the view", s, {"view": sorted(m.items())})
-        elif any(m[a] <= m[b] for a in m for b in m if a < b):
-            report(f"not-newest-first:{lostsig}", "the view is not ordered newest-first", s, {"view": sorted(m.items())})
+        parent, op = info[s][1], info[s][2]
+        pm = dict(parent[1]) if parent else {}
+        pvals = list(pm.values())
+        parent_bad = len(set(pvals)) != len(pvals) or any(pm[a] <= pm[b] for a in pm for b in pm if a < b)
+        cause = branch_of(parent[1] if parent else (), op)
+        kind = bad_kind(m)
+        if kind and not parent_bad and bad_kind(replay_ref(path_of(s))) is None:
+            report(f"{kind}:regression-vs-model", "the view violates the property on a history on which the modelled (unchanged) code does not",
+                   s, {"view": sorted(m.items()), "model_view": sorted(replay_ref(path_of(s)).items())})
+        elif not parent_bad:   # classify by the step that INTRODUCED the fault, not by every state that inherits it
+            if len(set(vals)) != len(vals):
+                report(f"duplicate-entry:{cause}", "one log entry is shown at two positions of the view", s, {"view": sorted(m.items())})
+            elif any(m[a] <= m[b] for a in m for b in m if a < b):
+                report(f"not-newest-first:{cause}", "the view is not ordered newest-first", s, {"view": sorted(m.items())})
         if not set(vals) <= set(log):
             report("invented-entry", "the view shows an entry the controller never reported", s, {"view": sorted(m.items())})
         # -- read-through from the top with nothing changing
         r = mt
+        first_bad = None
         for i in range(n + 1):
+            before = r
             r = ins(r, i, log[i] if i < n else None)
+            if first_bad is None and i < n and any(dict(r).get(j) != log[j] for j in range(i + 1)):
+                first_bad = branch_of(before, ("RP", i, log[i]))   # positions 0..i must be right after reading 0..i
         rd = dict(r)
         if any(rd.get(i) != log[i] for i in range(n)) or any(k >= n for k in rd):
-            report(f"read-through-mismatch:{lostsig}", "after a complete read-through the view differs from the controller's log",
+            rr = tuple(replay_ref(path_of(s)).items())
+            for i in range(n + 1):
+                rr = ins_ref(rr, i, log[i] if i < n else None)
+            rrd = dict(rr)
+            if not (any(rrd.get(i) != log[i] for i in range(n)) or any(k >= n for k in rrd)):
+                first_bad = "regression-vs-model"
+            report(f"read-through-mismatch:{first_bad or 'tail-not-cleared'}", "after a complete read-through the view differs from the controller's log",
                    s, {"belief_before": sorted(m.items()), "view_after": sorted(rd.items())})
         if depth[s] >= maxdepth:
             continue
@@ -273,7 +373,7 @@ def search(ctx: Ctx, fl, maxn: int, maxdepth: int) -> None:
             # push-down: every known entry moves down by one
             exp = {0: v} | {k + 1: x for k, x in m.items() if k + 1 <= MAX}
             if dict(m2) != exp:
-                cause = "slot0-unknown" if 0 not in m else ("belief-behind" if lost else "other")
+                cause = "slot0-unknown" if 0 not in m else ("belief-has-gaps" if sorted(m) != list(range(len(m))) else "other")
                 info.setdefault((n + 1, m2), (lost, s, ("new-entry", "announced")))
                 report(f"pushdown-missing:{cause}", "an announced new entry does not push the known entries down by one",
                        (n + 1, m2), {"belief_before": sorted(m.items()), "view_after": sorted(dict(m2).items()), "expected": sorted(exp.items())})
